@@ -33,6 +33,9 @@ def model_cases(tier: str, run: Run) -> list[dict]:
     return d["printed"]
 
 
+KEYWORDS = {"if", "then", "else", "assert", "with", "let", "in", "rec", "inherit"}
+
+
 def is_nix_bare(name: str) -> bool:
     import re
     return bool(re.match(r"^[A-Za-z_][A-Za-z0-9_'-]*$", name))
@@ -102,10 +105,14 @@ def check(tier: str, seed: int) -> int:
         if bad is None:
             raise tlc.TLCFailure(f"no verdict for case {c['id']}")
         run.case(c["text"], nontrivial=True)
-        if bad:
-            cl = sorted(bad)[0]
+        # a written name that is a reserved word makes the text unreadable: the follow-up clauses are consequences
+        if "C12_Written" in bad and c["r"].get("raw") is None and c["r"].get("res") == "ok":
+            bad = ["C12_Written"]
+        for cl in sorted(bad):          # every violated clause is reported (a known one must not hide a new one)
             # signature: clause + the character classes involved (quotes / backslash / ${ / dash / dot ...)
             special = "".join(sorted({ch for ch in c["text"] if not ch.isalnum() and ch not in "_"}))
+            if c["text"].strip('"') in KEYWORDS or any(seg in KEYWORDS for seg in c["text"].split(".")):
+                special += "|keyword"
             run.violation(f"{cl}|chars={special!r}|res={c['r']['res']}" if not cl.startswith("C12_OneAttribute_alt") else
                           f"{cl}|{'quoted_path_bare_file' if c['text'].startswith(chr(34)) else 'bare_path_quoted_file'}"
                           f"|dash={'-' in c['text']}",
